@@ -32,9 +32,12 @@ def check(ctx: Ctx) -> None:
     r3(ctx, "C05.R3")
     r4(ctx, "C05.R4")
     r5(ctx)
-    from .c06 import r1 as c06_r1, r3 as c06_r3
+    from .c06 import r1 as c06_r1, r2 as c06_r2, r3 as c06_r3
     c06_r1(ctx, "C05.R6")
     c06_r3(ctx, "C05.R7")
+    c06_r2(ctx, "C05.R8")
+    from .c20 import r5 as c20_r5
+    c20_r5(ctx, "C05.R9")
 
 
 def reach_sets(ctx: Ctx) -> Dict[str, str]:
@@ -48,21 +51,28 @@ def reach_sets(ctx: Ctx) -> Dict[str, str]:
         if not (isinstance(a, ast.Call) and isinstance(a.func, ast.Attribute) and a.func.attr in ("add", "update") and a.args
                 and isinstance(a.func.value, ast.Name)):
             continue
-        # the DIRECT source attribute: nearest attribute read on the chain of the inserted value
-        org = sl.origins(a.args[0], n.id, max_nodes=6)
-        attrs = [x.attr for e in org["exprs"] for x in ast.walk(e) if isinstance(x, ast.Attribute)
-                 and x.attr in ("manifest_list", "manifest_path", "file_path")]
-        direct = [x.attr for x in ast.walk(a.args[0]) if isinstance(x, ast.Attribute) and x.attr in ("manifest_list", "manifest_path", "file_path")]
-        role = direct[0] if direct else None
-        if role is None:
-            # one variable hop: m_path = m.manifest_path ; add(normalize(m_path))
-            for nm in names_in(a.args[0]):
-                for d in ctx.rd(f).reaching(n.id, nm):
-                    dn = ctx.cfg(f).nodes[d]
-                    if isinstance(dn.ast, ast.Assign):
-                        hit = [x.attr for x in ast.walk(dn.ast.value) if isinstance(x, ast.Attribute) and x.attr in ("manifest_list", "manifest_path", "file_path")]
-                        if hit:
-                            role = hit[0]
+        # the NEAREST source attribute on the def-use chain of the inserted value (breadth-first by hop distance)
+        role = None
+        ATTRS = ("manifest_list", "manifest_path", "file_path")
+        frontier = [(a.args[0], n.id)]
+        g_ = ctx.cfg(f)
+        for _hop in range(5):
+            nxt = []
+            for e, at in frontier:
+                hit = [x.attr for x in ast.walk(e) if isinstance(x, ast.Attribute) and x.attr in ATTRS]
+                if hit:
+                    role = hit[0]
+                    break
+                for nm in names_in(e):
+                    if nm == "self" or nm.startswith("self."):
+                        continue
+                    for d in ctx.rd(f).reaching(at, nm):
+                        dn = g_.nodes[d]
+                        if isinstance(dn.ast, ast.Assign):
+                            nxt.append((dn.ast.value, d))
+            if role or not nxt:
+                break
+            frontier = nxt
         if role and role not in out:
             out[role] = a.func.value.id
     missing = {"manifest_list", "manifest_path", "file_path"} - set(out)
@@ -246,6 +256,12 @@ def r2(ctx: Ctx) -> None:
              and r.ast.value.func.attr == "lstrip" for r in rets)  # type: ignore[union-attr]
     ctx.ob("C05.R2", np_, "_normalize_path strips leading slashes on every return", rets[0] if rets else None, ok and bool(rets),
            "'/data/x' (manifest spelling) and 'data/x' (listing spelling) normalise to the same key")
+    locs = sorted({x.attr for x in ast.walk(np_.node) if isinstance(x, ast.Attribute) and x.attr in ("table_path", "base_path", "location", "prefix")})
+    ctx.ob("C05.R2", np_, "_normalize_path depends on the path only (no table-location rewriting)", None, not locs,
+           ("manifest, marker and listing paths are table-relative everywhere" if not locs else
+            f"reads {locs}: stripping / rebasing by the table LOCATION (even with a '/' boundary) makes the two spellings of one file "
+            f"differ whenever the location coincides with an internal directory name (a relative table location 'data': listing "
+            f"'data/x' -> 'x', manifest '/data/x' -> 'data/x'): nothing listed is reachable and live files are deleted"))
 
 
 def r3(ctx: Ctx, rid: str) -> None:
